@@ -200,7 +200,10 @@ def _ss_configs(tier):
     for kind in ('sqlite', 'postgres'):
         for mode in ('for_update', 'serializable', 'pessimistic'):
             for ops in ('L', 'Lw', 'rLw', 'LrW'):
-                out.append(dict(provider=kind, mode=mode, ops=ops))
+                out.append(dict(provider=kind, mode=mode, ops=ops, retry=False))
+            # the application catches a database error of a locking read and tries again in the same session: the read that finally succeeds must be protected as well
+            for ops in ('L', 'rL', 'rLw'):
+                out.append(dict(provider=kind, mode=mode, ops=ops, retry=True))
     return out
 
 
@@ -220,7 +223,13 @@ def _ss_case(cfg, values):
                 if op == 'L':
                     sql = 'SELECT L%d' % k
                     if cfg['mode'] == 'for_update': db._get_cache().immediate = True     # what _find_in_db_ / Query._actual_fetch do for a locking read (locking_lookup contract)
-                    db._exec_sql(sql)
+                    try: db._exec_sql(sql)
+                    except (core.DBException, Fault) as e:
+                        if not cfg['retry']: raise
+                        note('retry')
+                        sql = 'SELECT L%d again' % k
+                        if cfg['mode'] == 'for_update': db._get_cache().immediate = True
+                        db._exec_sql(sql)
                     st['locking_reads'].append(sql)
                 elif op == 'r':
                     sql = 'SELECT r%d' % k
